@@ -87,7 +87,7 @@ func RunC13(tier string, replay string) int {
 		}
 		return r.Finish()
 	}
-	edits := EditPairs(tier)
+	edits := EditPairsWithBystanders(tier)
 	r.Extra["catalogue_size"] = len(edits)
 	r.Extra["bound_completed"] = map[string]string{"quick": "every edit kind at its simplest sites", "thorough": "every edit kind x every site"}[tier]
 	certified := 0
